@@ -1170,8 +1170,8 @@ def enum_mappings():
     return out
 
 
-QUICK = [("manifest", 3000, 600), ("taglist", 1500, 500), ("mapping", 2000, 500), ("mapseq", 1500, 500), ("remap", 2000, 500),
-         ("server", 1200, 400)]
+QUICK = [("manifest", 2400, 600), ("taglist", 1200, 400), ("mapping", 1500, 500), ("mapseq", 1200, 400), ("remap", 1600, 400),
+         ("server", 1000, 500)]
 THOROUGH = [("manifest", 60000, 600), ("taglist", 30000, 600), ("mapping", 40000, 600), ("mapseq", 30000, 600),
             ("remap", 40000, 600), ("server", 25000, 600)]
 
